@@ -6,6 +6,7 @@ import kv_engine
 
 MODULE = "Feox.Cache.Evict"   # imports Feox.Props.C16 and adds the eviction-target theorem
 THEOREMS = [
+    "Feox.C16.ttl_change_carries_the_value", "Feox.C16.loose_pick_resurrects", "Feox.Kv.TtlCarry.step_inv", "Feox.Kv.TtlCarry.step_value",
     "Feox.C16.accounting", "Feox.C16.hit_is_own_generation", "Feox.C16.large_values_rejected",
     "Feox.C16.retired_generation_never_replaces", "Feox.C16.replace_needs_newer", "Feox.C16.sweepBucket_size",
     "Feox.C16.insert_inv", "Feox.C16.get_inv", "Feox.C16.remove_inv", "Feox.C16.evict_inv", "Feox.C16.clear_inv",
